@@ -1,5 +1,4 @@
 import LexVerif.Gen.Dragonbox
-import LexVerif.Gen.Logs
 import LexVerif.Spec.Tables
 import LexVerif.Proof.Tables.Walk
 /-! `DRAGONBOX32_POWERS_OF_FIVE`: every row is `⌈10^k⌉` normalised to 64 bits. -/
@@ -9,18 +8,11 @@ open LexVerif LexVerif.Spec.Tables LexVerif.Gen.Dragonbox
 /-- closed form -/
 def row32Ok (i v : Nat) : Bool := v == pow10Cache 64 (smallestF32Pow5 + i)
 
-/-- the slice of the dumped `floor_log2_pow10` vector that lines up with the table's powers -/
-def logSlice32 : List Nat :=
-  Gen.Logs.floorLog2Pow10TabBiasedList.drop (smallestF32Pow5 - Gen.Logs.floorLog2Pow10Lo).toNat
-
-/-- declarative form, with the binary exponent the writer itself uses (`floor_log2_pow10(k) - 63`):
-the row is the unique 64-bit `c` with `(c-1)·2^e < 10^k ≤ c·2^e`. -/
-def row32Ceil (i : Nat) (vl : Nat × Nat) : Bool :=
-  decide (IsCeilPow10 64 (smallestF32Pow5 + i) ((vl.2 : Int) - Gen.Logs.floorLog2Pow10TabBias - 63) vl.1)
+/-- declarative form: the row is `⌈10^k / 2^e⌉`, `e = ⌊log₂ 10^k⌋ - 63`, a 64-bit number -/
+def row32Ceil (i v : Nat) : Bool := decide (IsCacheRow 64 (smallestF32Pow5 + i) v)
 
 theorem pow5_32_walk : allIdx row32Ok 0 pow5_32.toList = true := by decide +kernel
-theorem pow5_32_ceil_walk :
-    allIdx row32Ceil 0 (List.zip pow5_32List logSlice32) = true ∧ 78 ≤ logSlice32.length := by decide +kernel
+theorem pow5_32_ceil_walk : allIdx row32Ceil 0 pow5_32.toList = true := by decide +kernel
 theorem pow5_32_size : pow5_32.size = n32PowersOfFive
     ∧ (n32PowersOfFive : Int) = largestF32Pow5 - smallestF32Pow5 + 1 := by decide +kernel
 
